@@ -174,6 +174,62 @@ def V2.task {M O} (st : V2 M O) : V2 M O × Option (Call M) :=
         let s' : Sub M O := { s with offered := s.offered ++ [m], got := s.got ++ [o] }
         ({ st with pc := .disp srv (s' :: todo) seg left rest }, some ⟨s.key, m, true⟩)
 
+/-! ### `dispatch_batch` in closed form
+
+The same function written as the three nested loops of the source; `Lemmas/OutPortBatch.lean`
+proves that running the one-send-per-step machine through a whole batch computes exactly
+this (when no subscriber dies in the middle of the batch). -/
+
+/-- inner loop (`while message_index < segment_end`) for one subscriber: the updated
+subscriber, `retain_subscriber`, and the `Subscriber::send` calls made -/
+def sendSeg {M O} (dead : List Nat) (s : Sub M O) : List M → Sub M O × Bool × List (Call M)
+  | [] => (s, true, [])
+  | m :: ms =>
+    match s.conv m with
+    | none =>
+      let r := sendSeg dead { s with offered := s.offered ++ [m] } ms
+      (r.1, r.2.1, ⟨s.key, m, true⟩ :: r.2.2)
+    | some o =>
+      if dead.contains s.actor then (s, false, [⟨s.key, m, false⟩])
+      else
+        let r := sendSeg dead { s with offered := s.offered ++ [m], got := s.got ++ [o] } ms
+        (r.1, r.2.1, ⟨s.key, m, true⟩ :: r.2.2)
+
+/-- middle loop (`while subscriber_index < subscribers.len()`): subscribers kept, subscribers
+removed, calls made — subscriber-major -/
+def dispatchSeg {M O} (dead : List Nat) (seg : List M) :
+    List (Sub M O) → List (Sub M O) × List (Sub M O) × List (Call M)
+  | [] => ([], [], [])
+  | s :: t =>
+    let r := sendSeg dead s seg
+    let rest := dispatchSeg dead seg t
+    (if r.2.1 then r.1 :: rest.1 else rest.1, if r.2.1 then rest.2.1 else r.1 :: rest.2.1, r.2.2 ++ rest.2.2)
+
+/-- outer loop: `seg` accumulates the data entries of the current segment; a `SetSubscriber`
+entry closes the segment, which is delivered before the subscription is applied.
+`dispatch_batch(subscribers, batch)` is `dispatchBatch ad dead subscribers [] [] batch`
+(second component: the subscribers removed, for the theorems). -/
+def dispatchBatch {M O} (ad : Bool) (dead : List Nat) :
+    List (Sub M O) → List (Sub M O) → List M → List (Cmd M O) →
+      List (Sub M O) × List (Sub M O) × List (Call M)
+  | subs, gone, seg, [] =>
+    let r := dispatchSeg dead seg subs
+    (r.1, gone ++ r.2.1, r.2.2)
+  | subs, gone, seg, .data m :: b => dispatchBatch ad dead subs gone (seg ++ [m]) b
+  | subs, gone, seg, .sub s :: b =>
+    let r := dispatchSeg dead seg subs
+    let a := applySub ad r.1 s
+    let r' := dispatchBatch ad dead a.1 (gone ++ r.2.1 ++ a.2.toList) [] b
+    (r'.1, r'.2.1, r.2.2 ++ r'.2.2)
+
+/-- `n` consecutive steps of the port task and the calls they made -/
+def V2.steps {M O} : Nat → V2 M O → V2 M O × List (Call M)
+  | 0, st => (st, [])
+  | n + 1, st =>
+    let r := st.task
+    let r' := V2.steps n r.1
+    (r'.1, r.2.toList ++ r'.2)
+
 /-- Operations on a v2 port: the public API, a subscriber exiting, one port-task step. -/
 inductive Op2 (M O : Type) where
   | publish (m : M)
